@@ -26,6 +26,22 @@ def tree_sig(module):
     return h.hexdigest(), problems
 
 
+def code_of(module):
+    """What module.get_code() returns (prefix + value of every leaf, in order), without recursion:
+    the reference oracle must cope with trees that are deeper than the interpreter's recursion limit."""
+    out = []
+    stack = [module]
+    while stack:
+        n = stack.pop()
+        ch = getattr(n, 'children', None)
+        if ch is not None:
+            stack.extend(reversed(ch))
+        else:
+            out.append(n.prefix)
+            out.append(n.value)
+    return ''.join(out)
+
+
 def tree_lines(module):
     """Readable serialisation used only to describe a mismatch."""
     out = []
